@@ -504,6 +504,12 @@ theorem pub_step {s : St} (h : Pub s) (t : Tables s) (op : Op) : Pub (step s op)
     | pick call pn m ctx dl req => exact tables_opPick t call pn m ctx dl req
     | ctxdone call => exact tables_opCtxDone t call
     | done call err reply => exact tables_opDone t call err reply
+    | pickHold call pn m ctx dl req =>
+      exact opPickHold_cases _ s call pn m ctx dl req t (fun _ => tables_of_same t ⟨rfl, rfl, rfl, rfl, rfl, rfl, rfl⟩)
+        (tables_opPick t call pn m ctx dl req)
+    | resume call =>
+      exact opResume_cases _ s call t (fun _ => tables_of_same t ⟨rfl, rfl, rfl, rfl, rfl, rfl, rfl⟩)
+        (fun _ _ _ _ => tables_newSubConn (tables_of_same t ⟨rfl, rfl, rfl, rfl, rfl, rfl, rfl⟩))
   have h1 : Pub (stepCore s op).1 := by
     cases op with
     | ccs ver => exact pub_of_sameA h t tc (sameA_opCcs s ver)
@@ -514,6 +520,14 @@ theorem pub_step {s : St} (h : Pub s) (t : Tables s) (op : Op) : Pub (step s op)
     | pick call pn m ctx dl req => exact pub_of_sameA h t tc (sameA_opPick s call pn m ctx dl req)
     | ctxdone call => exact pub_of_sameA h t tc (sameA_opCtxDone s call)
     | done call err reply => exact pub_of_sameA h t tc (sameA_opDone s call err reply)
+    | pickHold call pn m ctx dl req =>
+      refine pub_of_sameA h t tc ?_
+      exact opPickHold_cases (SameA s) s call pn m ctx dl req (SameA.refl s) (fun _ => ⟨rfl, rfl, rfl, rfl, rfl⟩)
+        (sameA_opPick s call pn m ctx dl req)
+    | resume call =>
+      refine pub_of_sameA h t tc ?_
+      exact opResume_cases (SameA s) s call (SameA.refl s) (fun _ => ⟨rfl, rfl, rfl, rfl, rfl⟩)
+        (fun hl _ _ _ => (show SameA s { s with held := hl } from ⟨rfl, rfl, rfl, rfl, rfl⟩).trans (sameA_newSubConn _))
   unfold step
   generalize stepCore s op = r at h1 tc ⊢
   obtain ⟨s1, ev⟩ := r
